@@ -5,6 +5,7 @@ import (
 	"math/rand"
 	"os"
 	"regexp"
+	"strings"
 
 	"github.com/jig/lisp"
 	"github.com/jig/lisp/debuggertypes"
@@ -155,8 +156,17 @@ func c18Compare(c *fw.Ctx, b *diffBase, scripts []c18Script, sr *rand.Rand, text
 		var nilScope, unresolved string
 		seed := sr.Int63()
 		cr := rand.New(rand.NewSource(seed))
+		handedTrace := map[string]int{}
 		lisp.Stepper = func(a types.MalType, ns types.EnvType) debuggertypes.Command {
 			calls++
+			// a handed (trace! :k) is about to be evaluated: its effect must follow (checked after the run)
+			if l, ok := a.(types.List); ok && len(l.Val) == 2 {
+				if h, ok := l.Val[0].(types.Symbol); ok && h.Val == "trace!" {
+					if k, ok := l.Val[1].(string); ok && strings.HasPrefix(k, canon.Marker) {
+						handedTrace[k]++
+					}
+				}
+			}
 			if ns == nil && nilScope == "" {
 				nilScope = lisp.PRINT(a)
 			}
@@ -186,6 +196,20 @@ func c18Compare(c *fw.Ctx, b *diffBase, scripts []c18Script, sr *rand.Rand, text
 		if unresolved != "" {
 			c.Violate(fw.Violation{Key: "unresolvable-symbol", What: "the callback was handed symbol " + unresolved + " together with a scope in which it does not resolve", Input: in})
 			return
+		}
+		if rr.Err == nil {
+			seen := map[string]int{}
+			for _, ev := range rr.Trace {
+				if ev.K == canon.Kw {
+					seen[canon.Marker+ev.S]++
+				}
+			}
+			for k, n := range handedTrace {
+				if seen[k] < n {
+					c.Violate(fw.Violation{Key: "handed-form-never-evaluated", What: fmt.Sprintf("the callback was handed (trace! %s) %d time(s) but that effect happened %d time(s): a form was handed that was not about to be evaluated", k, n, seen[k]), Input: in})
+					return
+				}
+			}
 		}
 		if rr.Class != ref.Class {
 			c.Violate(fw.Violation{Key: "outcome:" + sc.name, What: fmt.Sprintf("without stepper: %s; with stepper script %s: %s", outcomeStr(ref), sc.name, outcomeStr(rr)), Input: in})
